@@ -29,13 +29,23 @@ Definition fcmr_agrees_pinned (c : fcmr_case) : bool :=
 
 (* specification, independent of the loop: the answer is a root (or ""), it is the path itself or
    a component-wise ancestor of it, and no root that is one is deeper *)
-Definition contains_path (root path : str) : bool := comps_prefix (comps_of root) (comps_of path).
+Definition contains_path (root path : str) : bool :=
+  str_eqb root path
+  || (comps_prefix (comps_of root) (comps_of path)
+      && Nat.ltb (length (comps_of root)) (length (comps_of path))).
+(* the specification speaks about clean spellings (what filepath.Abs/Join produce) *)
+Definition fcmr_in_domain (c : fcmr_case) : bool :=
+  str_eqb (clean (fc_path c)) (fc_path c)
+  && forallb (fun r => str_eqb r [] || str_eqb (clean r) r) (fc_roots c).
+
 Definition fcmr_meets_spec (c : fcmr_case) : bool :=
   let got := fc_got c in
+  negb (fcmr_in_domain c) ||
   (str_in got (fc_roots c) || str_eqb got [])
-  && contains_path got (fc_path c)
-  && forallb (fun r => negb (contains_path r (fc_path c))
-                       || Nat.leb (length (comps_of r)) (length (comps_of got))) (fc_roots c).
+  && (str_eqb got [] || contains_path got (fc_path c))
+  && forallb (fun r => negb (contains_path r (fc_path c)) || str_eqb r []
+                       || (negb (str_eqb got []) && Nat.leb (length (comps_of r)) (length (comps_of got)))
+                       || (str_eqb got [] && Nat.eqb (length (comps_of r)) 0)) (fc_roots c).
 
 (* ---------------------------------------------------------------- provider / handleRename *)
 Inductive op :=
@@ -176,14 +186,18 @@ Definition finish_own (fl : flags) (gv : git_view) (cwd : str) (roots : list str
   | _ => finish_command fl cwd gv roots fs lr [] []
   end.
 
-Definition ws_results (c : ws_case) : list (outcome * fsys str) :=
+Definition ws_results_gen (fl : flags) (gv : git_view) (cwd : str) (c : ws_case)
+  : list (outcome * fsys str) :=
   let fs := {| fs_files := w_files c; fs_dirs := w_dirs c |} in
   match load_provider fs (w_sel c) with
   | None => [(OutFixerError, fs)]
   | Some p0 =>
-    map (finish_own {| fl_force := true; fl_dry_run := w_dry c |} no_git [] (w_roots c) fs)
+    map (finish_own fl gv cwd (w_roots c) fs)
         (explore 12 (w_policy c) (akeys (pv_files p0)) (w_roots c) (w_lint c) p0 new_report)
   end.
+
+Definition ws_results (c : ws_case) : list (outcome * fsys str) :=
+  ws_results_gen {| fl_force := true; fl_dry_run := w_dry c |} no_git [] c.
 
 (* when the commit stops half way the directories left behind depend on the order in which the Go
    sets are walked: only the files are compared then *)
